@@ -335,8 +335,12 @@ const SOLEND: Pubkey = solana_sdk::pubkey!("So1endDq2YkqhipRh3WViPa8hdiSpxWy6z3Z
 /// Exchange-rate-adjusted variants (Kamino / Drift / Solend with a Pyth feed): the adapter's
 /// adjusted price must not exceed price x exact exchange rate, a venue account that was not
 /// refreshed in the current slot / second must be refused, and so must a wrong venue account.
-fn venue_case(r: &mut Report, g: &mut G) {
+pub fn venue_case(r: &mut Report, g: &mut G) {
     use num_bigint::BigInt;
+    // the C20 check runs the same cases: what they say about the exchange-rate adjustment (never above
+    // price x exact rate, an adjustment that does not fit is an error and not a smaller price, stale
+    // venue state refused) is attributed to the property whose check is running
+    let vp: &str = if r.prop == "C20" { "C20" } else { "C09" };
     let venue = g.gen_range(0..3); // 0 kamino 1 drift 2 solend
     let vname = ["kamino", "drift", "solend"][venue];
     let mut bank = Bank::zeroed();
@@ -353,36 +357,53 @@ fn venue_case(r: &mut Report, g: &mut G) {
     bank.config.asset_tag = [3u8, 4, 5][venue];
     let now: i64 = 1_700_000_000 + g.gen_range(0..1_000_000);
     let slot: u64 = 1_000_000 + g.gen_range(0..1_000_000u64);
-    let price: i64 = g.gen_range(1..50_000_000_000i64);
+    let mut price: i64 = g.gen_range(1..50_000_000_000i64);
     let expo = [-8i32, -6, -5][g.gen_range(0..3)];
+    // a quarter of the cases sit at the cliff: the product price x rate is placed just below / above
+    // what the adjusted integer (Pyth: i64 in the feed's units) or fixed-point value (Switchboard:
+    // 2^79 in 18-decimal units, i.e. 604 462.9 dollars) can hold
+    let cliff = g.gen_range(0..4) == 0;
+    let cliff_f = [0.5f64, 0.99, 0.999_999, 1.000_001, 1.01, 2.0, 1000.0][g.gen_range(0..7)];
+    let cliff_product = |swb: bool| -> f64 { if swb { 604_462.909_807_314_6 * 10f64.powi(-expo) } else { i64::MAX as f64 } };
     let conf: u64 = (price as u64) / [0u64, 1000, 100, 30][g.gen_range(0..4)].max(1) * (g.gen_range(0..2) as u64);
     let fault = g.gen_range(0..8); // 0 stale venue 1 wrong venue key 2 wrong venue owner 3 bad discriminator else none
     let dec: u32 = [6u32, 9, 6, 8][g.gen_range(0..4)];
     // venue state and exact exchange rate
-    let (vdata, vowner, rate, stale): (Vec<u8>, Pubkey, Option<Rat>, bool) = match venue {
+    let (vdata, vowner, rate, stale, trunc_rel): (Vec<u8>, Pubkey, Option<Rat>, bool, Rat) = match venue {
         0 => {
             let mut res = kamino_mocks::state::MinimalReserve::zeroed();
             res.available_amount = g.gen_range(0..(1u64 << 50));
             let borrowed: u128 = (g.gen_range(0..(1u64 << 50)) as u128) << 60;
             res.borrowed_amount_sf = borrowed.to_le_bytes();
             res.mint_total_supply = if g.gen_range(0..10) == 0 { 0 } else { g.gen_range(1..(1u64 << 50)) };
+            if cliff {
+                let liq_f = res.available_amount as f64 + (borrowed >> 60) as f64;
+                res.mint_total_supply = ((liq_f * price as f64 / (cliff_product(swb) * cliff_f)) as u64).max(1);
+                r.count("venue.cases_at_the_overflow_cliff/kamino");
+            }
             res.mint_decimals = dec as u64;
             res.slot = if fault == 0 { slot - g.gen_range(1..3) } else { slot + g.gen_range(0..2) };
             let liq = ru(res.available_amount as u128) + Rat::new(BigInt::from(borrowed), BigInt::from(1u128 << 60));
-            let rate = if res.mint_total_supply == 0 { None } else { Some(liq / ru(res.mint_total_supply as u128)) };
+            let rate = if res.mint_total_supply == 0 { None } else { Some(liq.clone() / ru(res.mint_total_supply as u128)) };
             let mut d = kamino_mocks::state::RESERVE_DISCRIMINATOR.to_vec();
             d.extend_from_slice(bytemuck::bytes_of(&res));
-            (d, KAMINO, rate, fault == 0)
+            // the program divides both supplies by 10^decimals on the 2^-48 grid before taking the ratio
+            let tr = if res.mint_total_supply == 0 || liq.is_zero() { zero() } else { ulp() * pow10(dec) * ri(4) * (one() / ru(res.mint_total_supply as u128) + one() / &liq) };
+            (d, KAMINO, rate, fault == 0, tr)
         }
         1 => {
             let mut m = drift_mocks::state::MinimalSpotMarket::zeroed();
             let cum: u128 = 10_000_000_000u128 + g.gen_range(0..20_000_000_000u128);
+            if cliff {
+                price = ((cliff_product(swb) * cliff_f / (cum as f64 / 1e10)) as i64).clamp(1, i64::MAX / 2);
+                r.count("venue.cases_at_the_overflow_cliff/drift");
+            }
             m.cumulative_deposit_interest = cum.to_le_bytes();
             m.decimals = dec;
             m.last_interest_ts = if fault == 0 { (now - g.gen_range(1..3)) as u64 } else { (now + g.gen_range(0..2)) as u64 };
             let mut d = drift_mocks::state::SPOT_MARKET_DISCRIMINATOR.to_vec();
             d.extend_from_slice(bytemuck::bytes_of(&m));
-            (d, DRIFT, Some(ru(cum) / ru(10_000_000_000)), fault == 0)
+            (d, DRIFT, Some(ru(cum) / ru(10_000_000_000)), fault == 0, zero())
         }
         _ => {
             let mut res = solend_mocks::state::SolendMinimalReserve::zeroed();
@@ -391,14 +412,20 @@ fn venue_case(r: &mut Report, g: &mut G) {
             let borrowed: u128 = (g.gen_range(0..(1u64 << 40)) as u128) * wad;
             res.liquidity_borrowed_amount_wads = borrowed.to_le_bytes();
             res.collateral_mint_total_supply = if g.gen_range(0..10) == 0 { 0 } else { g.gen_range(1..(1u64 << 50)) };
+            if cliff {
+                let liq_f = res.liquidity_available_amount as f64 + (borrowed / wad) as f64;
+                res.collateral_mint_total_supply = ((liq_f * price as f64 / (cliff_product(swb) * cliff_f)) as u64).max(1);
+                r.count("venue.cases_at_the_overflow_cliff/solend");
+            }
             res.liquidity_mint_decimals = dec as u8;
             res.last_update_slot = if fault == 0 { slot - g.gen_range(1..3) } else { slot + g.gen_range(0..2) };
             let liq = ru(res.liquidity_available_amount as u128) + ru(borrowed / wad);
             let sup = res.collateral_mint_total_supply;
-            let rate = if sup == 0 { None } else { Some(liq / ru(sup as u128)) };
+            let rate = if sup == 0 { None } else { Some(liq.clone() / ru(sup as u128)) };
             let mut d = vec![1u8];
             d.extend_from_slice(bytemuck::bytes_of(&res));
-            (d, SOLEND, rate, fault == 0)
+            let tr = if sup == 0 || liq.is_zero() { zero() } else { ulp() * pow10(dec) * ri(4) * (one() / ru(sup as u128) + one() / &liq) };
+            (d, SOLEND, rate, fault == 0, tr)
         }
     };
     crate::NOW_SLOT.store(slot, std::sync::atomic::Ordering::Relaxed);
@@ -473,7 +500,7 @@ fn venue_case(r: &mut Report, g: &mut G) {
         (Some((u, _, _)), true) if u.is_some() => {
             let what = ["venue-state-not-refreshed-this-slot-or-second", "wrong-venue-account-key", "wrong-venue-account-owner", "bad-venue-discriminator"][fault as usize];
             let _ = stale;
-            r.violate("C09", &format!("C09/adapter/{}/price-despite-{}", vname, what), format!("price {} expo {}", price, expo));
+            r.violate(if fault == 0 { vp } else { "C09" }, &format!("{}/adapter/{}/price-despite-{}", if fault == 0 { vp } else { "C09" }, vname, what), format!("price {} expo {}", price, expo));
         }
         (Some((Some(u), low, high)), false) => {
             let sc = one() / pow10(expo.unsigned_abs());
@@ -484,13 +511,18 @@ fn venue_case(r: &mut Report, g: &mut G) {
             };
             let got = bits_to_rat(u.to_bits());
             // truncation: integer price floor (one price unit), scaled supplies (ulp / scaled value), fixed-point ops
-            let slack = &exact * rq(1, 1 << 30) + &sc * ri(2) + ulp() * ri(64);
+            let slack = &exact * (rq(1, 1 << 30) + &trunc_rel) + &sc * ri(2) + ulp() * ri(64);
             r.max(&format!("C09.venue_{}_max_rate", vname), rate.as_ref().map(to_f64).unwrap_or(1.0));
             if got > &exact + &slack {
-                r.violate("C09", &format!("C09/adapter/{}/adjusted-price-exceeds-price-times-exact-rate", vname), format!("adapter {} exact {} (price {} rate {})", u, show(&exact), show(&reported), rate.as_ref().map(show).unwrap_or_default()));
+                r.violate(vp, &format!("{}/adapter/{}/adjusted-price-exceeds-price-times-exact-rate", vp, vname), format!("adapter {} exact {} (price {} rate {})", u, show(&exact), show(&reported), rate.as_ref().map(show).unwrap_or_default()));
             }
             if got < &exact - &slack - &exact * rq(1, 1_000_000) {
-                r.violate("C09", &format!("C09/adapter/{}/adjusted-price-far-below-price-times-exact-rate", vname), format!("adapter {} exact {}", u, show(&exact)));
+                // (this is also what an adjustment that did not fit looks like when it is dropped
+                // instead of reported: the unadjusted price comes back)
+                r.violate(vp, &format!("{}/adapter/{}/adjusted-price-far-below-price-times-exact-rate", vp, vname), format!("adapter {} exact {} (price {} rate {})", u, show(&exact), show(&reported), rate.as_ref().map(show).unwrap_or_default()));
+            }
+            if cliff {
+                r.count("venue.cliff_cases_priced");
             }
             if let (Some(l), Some(h)) = (low, high) {
                 if l > u || h < u {
@@ -498,6 +530,9 @@ fn venue_case(r: &mut Report, g: &mut G) {
                 }
             }
             r.count("C09.venue_prices_compared");
+        }
+        (None, false) if cliff => {
+            r.count("venue.cliff_cases_refused");
         }
         _ => {}
     }
